@@ -22,8 +22,48 @@ BUILD = os.path.join(VERIF, ".build")
 WHEELS = "/opt/veriftools/wheels"
 PYTHON = "/venv/bin/python"
 
+def _source_digest():
+    """Digest of every Python source of the package under test. numba's on-disk cache is
+    keyed by the *caller's* file only, so a change in a callee defined in another file would
+    be masked by a stale cached caller; a cache directory per source digest rules that out."""
+    import hashlib
+
+    h = hashlib.sha256()
+    root = os.path.join(REPO, "piquasso")
+    for dp, dn, fn in sorted(os.walk(root)):
+        dn.sort()
+        if "__pycache__" in dp:
+            continue
+        for f in sorted(fn):
+            if f.endswith(".py"):
+                p = os.path.join(dp, f)
+                h.update(p.encode())
+                try:
+                    with open(p, "rb") as fh:
+                        h.update(fh.read())
+                except OSError:
+                    pass
+    return h.hexdigest()[:16]
+
+
+def numba_cache_dir():
+    base = os.path.join(BUILD, "numba")
+    d = os.path.join(base, _source_digest())
+    if not os.path.isdir(d):
+        os.makedirs(d, exist_ok=True)
+        # keep the disk bounded: only the 4 most recent digests survive
+        try:
+            olds = sorted((os.path.join(base, x) for x in os.listdir(base)), key=os.path.getmtime)
+            import shutil
+
+            for o in olds[:-4]:
+                shutil.rmtree(o, ignore_errors=True)
+        except OSError:
+            pass
+    return d
+
+
 _ENV_DEFAULTS = {
-    "NUMBA_CACHE_DIR": os.path.join(BUILD, "numba"),
     "JAX_PLATFORMS": "cpu",
     "TF_CPP_MIN_LOG_LEVEL": "3",
     "PYTHONHASHSEED": "0",
@@ -39,6 +79,7 @@ def child_env(extra=None):
     for k, v in _ENV_DEFAULTS.items():
         env.setdefault(k, v)
     env["VERIF_REPO"] = REPO
+    env["NUMBA_CACHE_DIR"] = numba_cache_dir()
     env["PYTHONPATH"] = VERIF + (":" + env["PYTHONPATH"] if env.get("PYTHONPATH") else "")
     if extra:
         env.update({k: str(v) for k, v in extra.items()})
@@ -82,6 +123,7 @@ def install(flavour=None):
         return
     for k, v in _ENV_DEFAULTS.items():
         os.environ.setdefault(k, v)
+    os.environ["NUMBA_CACHE_DIR"] = numba_cache_dir()
     if "piquasso" in sys.modules:
         raise RuntimeError("vf.boot.install() must run before piquasso is imported")
     sys.meta_path[:] = [
